@@ -160,7 +160,8 @@ def handleEntries (j : Json) : Except String Json := do
             comment := ← fromJson? (← dj.getObjVal? "comment"), docAttr := docAttr,
             groups := ← fromJson? (← dj.getObjVal? "groups"), isPrivate := ← dj.getObjValAs? Bool "isPrivate" } : Listing.Decl))
   let as : List Listing.AliasOf ← fromJson? (← j.getObjVal? "aliases")
-  return Json.mkObj [("entries", toJson (ds.map (fun d => Listing.entriesOf as d)))]
+  let mg : List String := (j.getObjVal? "moduleGroups" >>= fromJson?).toOption.getD []
+  return Json.mkObj [("entries", toJson (ds.map (fun d => Listing.entriesOf as d))), ("groups", toJson (Listing.publicGroups ds mg))]
 
 /-- {"op":"percent","s":S} → encode_uri_component(S) -/
 def handlePercent (j : Json) : Except String Json := do
